@@ -1132,12 +1132,12 @@ def coq_cbor(val):
 
 
 def coq_octets(data):
+    ''' Octet string as an explicit list literal (Lib.Bytes.unhex costs ~1 s per 150 octets inside
+    vm_compute: big-number division per octet). '''
     data = bytes(data)
     if not data:
         return '(@nil N)'
-    if len(data) <= 8:
-        return '[' + '; '.join(str(octet) for octet in data) + ']'
-    return '(unhex %d 0x%s)' % (len(data), data.hex())
+    return '[' + ';'.join(str(octet) for octet in data) + ']'
 
 
 def coq_scope(scope):
